@@ -1,6 +1,7 @@
 import Hub.Proofs.Sync
 import Hub.Model.Pipeline
 import Hub.Proofs.PipeInv
+import Hub.Proofs.PipeLO
 import Hub.Generated.Pipeline
 /-!
 # C08 — incremental jobs converge and tokens never run ahead of delivered data
@@ -151,6 +152,44 @@ example :
     let s := ([w, .run false {}, .run true { dieAfter := some 1 }] : List Hub.PipeInv.Ev).foldl (Hub.PipeInv.stepEv 1) { srcs := [[]] }
     let r := Hub.Pipe.runJob true (Hub.PipeInv.cfg1 1) false {} s
     r.2 = .ok ∧ r.1.tok = [some 3] ∧ Hub.Pipe.latestV r.1.sink.feed 1 = some ⟨1, 11, false⟩ := by decide
+
+/-! ## latest-only sources -/
+
+open Hub.Pipe Hub.PipeInv Hub.PipeLO in
+/-- **one latest-only page**: reading from a cursor at which the invariant holds (every id changed below it is up to date
+in the sink or has a newer occurrence at or above it), delivering the page and moving the cursor to the returned token
+keeps the invariant; the token moves forward and stays inside the feed. -/
+theorem pipe_lo_page (f g : Feed) (cur batch : Nat) (hc : cur ≤ f.length) (h : InvLO f g cur) :
+    let r := readPage f cur batch true
+    InvLO f (storeBatch g r.1) r.2 ∧ cur ≤ r.2 ∧ r.2 ≤ f.length := lo_page_step f g cur batch hc h
+
+open Hub.Pipe Hub.PipeInv Hub.PipeLO in
+/-- **token safety over every history, latest-only**: source writes (any batches) and incremental runs over a
+latest-only dataset source with any fault at any point (sink rejection, kill, death between sink write and token
+store), from the empty hub. -/
+theorem pipe_lo_token_safe (b : Nat) (hb : 0 < b) (evs : List EvLO) :
+    ∃ f, SafeLO f (evs.foldl (stepEvLO b) { srcs := [[]] }) :=
+  history_safeLO b hb evs { srcs := [[]] } [] ⟨rfl, Nat.zero_le _, invLO_zero _ _⟩
+
+open Hub.Pipe Hub.PipeInv Hub.PipeLO in
+/-- **convergence and recovery, latest-only**: after any such history, a run that ends `ok` leaves the sink's latest
+version of every source id equal to the source's latest version. -/
+theorem pipe_lo_converges (b : Nat) (hb : 0 < b) (evs : List EvLO) (flt : Faults) :
+    let s := evs.foldl (stepEvLO b) { srcs := [[]] }
+    let r := runJob true (cfgLO b) false flt s
+    r.2 = .ok → ∃ f, r.1.srcs = [f] ∧ ∀ id, (∃ p, Occ f id p) → latestV r.1.sink.feed id = latestV f id := by
+  intro s r hok
+  obtain ⟨f, hs⟩ := pipe_lo_token_safe b hb evs
+  obtain ⟨h1, h2⟩ := runJob_safeLO b hb flt s f hs
+  exact ⟨f, h1.srcs, h2 hok⟩
+
+-- non-vacuity: three versions of id 1 and one of id 2; a latest-only run with batch 1 that dies after its first batch,
+-- then a clean run: converged on the newest versions, the superseded ones were never delivered
+example :
+    let w : Hub.PipeLO.EvLO := .write [⟨1, 10, false⟩, ⟨1, 11, false⟩, ⟨2, 20, false⟩, ⟨1, 12, false⟩]
+    let s := ([w, .run { dieAfter := some 1 }] : List Hub.PipeLO.EvLO).foldl (Hub.PipeLO.stepEvLO 1) { srcs := [[]] }
+    let r := Hub.Pipe.runJob true (Hub.PipeLO.cfgLO 1) false {} s
+    r.2 = .ok ∧ r.1.sink.feed = [⟨2, 20, false⟩, ⟨1, 12, false⟩] ∧ r.1.tok = [some 4] := by decide
 
 /-! ## the tie to pipeline.go / union_source.go: regenerated skeletons -/
 set_option maxRecDepth 8000 in
